@@ -75,8 +75,8 @@ class C13(Property):
     level_note = ""
     technique = "Lean 4 model + inverse-law proof; differential correspondence; exhaustive two-level names"
     exhaustive_note = ""
-    quick_n = 2500
-    thorough_n = 40000
+    quick_n = 25000
+    thorough_n = 150000
 
     def _case(self, tree, starts):
         return {"tree": tree, "starts": starts}
